@@ -292,7 +292,7 @@ def random_name(rng, intl=False, maxlen=30, hostile=False):
         if intl: alphabet += list(range(0xc0, 0x100))
     return bytes(rng.choice(alphabet) for _ in range(n))
 
-def random_tree(rng, intl=False, nfiles=8, ndirs=3, maxsize=60000, links=False, dbs=488, fill488=False):
+def random_tree(rng, intl=False, nfiles=8, ndirs=3, maxsize=60000, links=False, dbs=488, fill488=False, collide=False):
     """a random tree with unique (case-folded) names per directory"""
     sizes = [0, 1, dbs-1, dbs, dbs+1, 2*dbs, 71*dbs, 72*dbs, 72*dbs+1, 73*dbs, 144*dbs+5]
     dirs = [[]]          # kid lists
@@ -324,6 +324,21 @@ def random_tree(rng, intl=False, nfiles=8, ndirs=3, maxsize=60000, links=False, 
             parent.append(HardLink(fresh(parent, rng), tgt))
         parent = rng.choice(dirs)
         parent.append(SoftLink(fresh(parent, rng), b"some/where"))
+    if collide:
+        # a NON-EMPTY directory and further entries of its parent whose names fall into the same hash slot: whatever the
+        # chain order, a recursive listing has to come back from the sub-directory and continue with its chain neighbours
+        cands = [d for d in nodes if d.kind == 'dir']
+        if not cands:
+            d = Dir(fresh(dirs[0], rng), date=(50, 1, 1)); dirs[0].append(d); dirs.append(d.kids); nodes.append(d); cands = [d]
+        d = rng.choice(cands)
+        if not d.kids: d.kids.append(File(b"inside", b"abc", date=(51, 1, 1)))
+        parent = next(k for k in dirs if any(x is d for x in k))
+        hv = amiga_hash(d.name, intl)
+        added, i = 0, 0
+        while added < 2 and i < 20000:
+            nm = b"c%05d" % i; i += 1
+            if amiga_hash(nm, intl) == hv and all(k.name != nm for k in parent):
+                parent.append(File(nm, b"collide" * added, date=(52 + added, 1, 1))); added += 1
     if fill488:
         # a directory whose cache records fill a cache block EXACTLY to its last byte: 14 records of 32 bytes and one of 40
         d = Dir(b"full488", date=(100, 2, 3))
